@@ -29,7 +29,7 @@ structure NumOK (count maxCount : Nat) (minV maxV v : Int) : Prop where
   hi : v ≤ maxV
   c1 : 1 ≤ count
   c2 : count ≤ maxCount
-  c3 : maxCount ≤ 9
+  c3 : maxCount ≤ 9 ∨ 0 ≤ minV
   abs : v.natAbs < 10 ^ maxCount
 
 theorem pow_le_1e9 (n : Nat) (h : n ≤ 9) : 10 ^ n ≤ 1000000000 := by
@@ -39,7 +39,10 @@ theorem pow_le_1e9 (n : Nat) (h : n ≤ 9) : 10 ^ n ≤ 1000000000 := by
 theorem formatNum_eq (count maxCount : Nat) (minV maxV v : Int) (h : NumOK count maxCount minV maxV v) :
     formatNum count maxCount minV v = numOut count v := by
   obtain ⟨lo, hi, c1, c2, c3, habs⟩ := h
-  have hb := pow_le_1e9 maxCount c3
+  have hb : 0 ≤ minV ∨ 10 ^ maxCount ≤ 1000000000 := by
+    rcases c3 with h | h
+    · right; exact pow_le_1e9 maxCount h
+    · left; exact h
   unfold formatNum numOut
   by_cases hv : v ≥ 0
   · rw [if_pos hv]
